@@ -60,6 +60,7 @@ def projection(o, X, names, ds=None):
     # a second frame: the qualitative columns exchanged, so that each feature meets values that are known
     # modalities of another feature (unseen for itself); judged feature by feature
     swapped = {}
+    disturbed = {}
     qs = [f for f in names if f in QUALI and f in o.features]
     for f in names:
         if f in qs:
@@ -70,7 +71,13 @@ def projection(o, X, names, ds=None):
                 fr = X.copy(deep=True)
                 fr[f] = pd.Series([np.nan if v is None else v for v in ds['features'][other]['values']], dtype=object)
                 try:
-                    swapped[f] = [('nan' if E.isnan(v) else repr(v)) for v in o.transform(fr)[f]]
+                    res = o.transform(fr)
+                    swapped[f] = [('nan' if E.isnan(v) else repr(v)) for v in res[f]]
+                    if tr is not None:
+                        for g in names:        # every other feature reads its own, untouched column
+                            if g != f and g in o.features and g in res.columns:
+                                same = [('nan' if E.isnan(v) else repr(v)) for v in res[g]] == [('nan' if E.isnan(v) else repr(v)) for v in tr[g]]
+                                disturbed[g] = disturbed.get(g, False) or not same
                 except Exception as e:
                     swapped[f] = type(e).__name__
     for f in names:
@@ -79,7 +86,7 @@ def projection(o, X, names, ds=None):
             continue
         vo = o.values_orders[f]
         col = [('nan' if E.isnan(v) else repr(v)) for v in tr[f]] if tr is not None else terr
-        col = [col, swapped.get(f)]
+        col = [col, swapped.get(f), bool(disturbed.get(f, False))]
         out[f] = json.dumps([[repr(k) for k in vo], [[repr(k), [repr(m) for m in vo.content[k]]] for k in vo], col])
     return out
 
